@@ -1,5 +1,14 @@
 F = 'xenium/michael_scott_queue.hpp'
 Q = r'michael_scott_queue<T, Policies\.\.\.>::'
+import re
+def node_vars(text, lw):
+    """unit-local rule: every local that holds a node (guard_ptr x; node* x = ...; auto x = new node / pop_node() / _head.load) is dereferenced with GDEREF"""
+    names = set()
+    for m in re.finditer(r'\bguard_ptr (\w+);|\bnode\* (\w+) =|\bauto (\w+) = (?:new node\b|pop_node\(|_head\.load\b)', text):
+        names.update(x for x in m.groups() if x)
+    lw.spec = dict(lw.spec, deref={n: 'GDEREF' for n in names})
+    return text
+
 COMMON = dict(
     file=F, members=['_head', '_tail'],
     methods={'acquire': 'G_acquire', 'reclaim': 'G_reclaim', 'get': 'MP_get'},
@@ -9,16 +18,16 @@ COMMON = dict(
                (r'\bguard_ptr (\w+);', r'guard_ptr \1 = 0;', 'guard_default_ctor'),
                (r'\bmarked_ptr (\w+)\((\w+)\.get\(\)\);', r'marked_ptr \1 = \2.get();', 'marked_ptr_ctor'),
                (r'\bmarked_ptr (\w+)\{\};', r'marked_ptr \1 = 0;', 'marked_ptr_ctor'),
-               (r'\bnode\* n = new node\(std::move\(value\)\);', 'marked_ptr n = XV_NEW_NODE(value);', 'new_node'),
-               (r'\bauto n = new node\(\);', 'marked_ptr n = XV_NEW_DUMMY();', 'new_node'),
-               (r'\bdelete n\.get\(\);', 'XV_DELETE_NODE(n);', 'delete_node'),
+               (r'\bnode\* (\w+) = new node\(std::move\((\w+)\)\);', r'marked_ptr \1 = XV_NEW_NODE(\2);', 'new_node'),
+               (r'\bauto (\w+) = new node\(\);', r'marked_ptr \1 = XV_NEW_DUMMY();', 'new_node'),
+               (r'\bdelete (\w+)\.get\(\);', r'XV_DELETE_NODE(\1);', 'delete_node'),
                (r'reinterpret_cast<T&>\((\w+)->_data\)\.~T\(\);', r'XV_DTOR_T(XV_DATA(\1));', 'dtor_T'),
                (r'reinterpret_cast<T&>\((\w+)->_data\)', r'XV_DATA(\1)', 'data_ref'),
                (r'\bdata\.~T\(\);', 'XV_DTOR_T(data);', 'dtor_T'),
                (r'\bresult = std::move\(data\);', 'XV_MOVE_ASSIGN(result, data);', 'move_T'),
                (r'\bstd::optional<T> result\(std::move\(data\)\);', 'optval result = XV_MOVE_OPT(data);', 'move_T')],
     subst=[(r'\bstd::nullopt\b', 'XV_NULLOPT', 'nullopt'), (r'\bmarked_ptr\b', 'marked_ptr_t', 'type_name')],
-    deref={'t': 'GDEREF', 'h': 'GDEREF', 'n': 'GDEREF'},
+    py_pre=node_vars,
     post_subst=[(r'GDEREF\((\w+)\)->(\w+)', r'N_\2(\1)', 'node_member')],
 )
 PUSH = dict(COMMON, sig=r'void ' + Q + r'push\(T value\)', may_throw=['XV_NEW_NODE'],
